@@ -52,9 +52,26 @@ def retry_run(sc, rs, tier, seed):
 
     dis = [(d, d.get("first_diff_line", -1) >= 0) for d in r.disagreements]
     ora = [(o, not is_known(o)) for o in r.oracle_failures]
-    with ThreadPoolExecutor(max_workers=max(2, core.NCPU)) as ex:
-        dres = list(ex.map(lambda t: (not t[1]) or persists(t[0]["ops"], False), dis))
-        ores = list(ex.map(lambda t: (not t[1]) or persists(t[0]["ops"], True), ora))
+    # Re-running is for telling a hiccup from a property of the tree. When the first `probe` failing cases all
+    # persist, the tree is broken and the remaining failures are kept without spending minutes on re-runs.
+    probe = rs.get("retry_probe", 8)
+
+    def confirm(items, want_oracle):
+        todo = [i for i, (_, need) in enumerate(items) if need]
+        keep = [True] * len(items)
+        head, tail = todo[:probe], todo[probe:]
+        with ThreadPoolExecutor(max_workers=max(2, core.NCPU)) as ex:
+            res = list(ex.map(lambda i: persists(items[i][0]["ops"], want_oracle), head))
+            for i, k in zip(head, res):
+                keep[i] = k
+            if tail and not all(res):
+                res2 = list(ex.map(lambda i: persists(items[i][0]["ops"], want_oracle), tail))
+                for i, k in zip(tail, res2):
+                    keep[i] = k
+        return keep
+
+    dres = confirm(dis, False)
+    ores = confirm(ora, True)
     dropped = dres.count(False) + ores.count(False)
     r.disagreements = [d for (d, _), keep in zip(dis, dres) if keep]
     r.oracle_failures = [o for (o, _), keep in zip(ora, ores) if keep]
@@ -62,13 +79,13 @@ def retry_run(sc, rs, tier, seed):
     return r
 
 
-DL_RUN = {"harness": "hdeadline", "driver": "dldrv", "fields": ["st", "post", "overdue"], "custom": retry_run,
+DL_RUN = {"harness": "hdeadline", "driver": "dldrv", "corpus": "deadline", "fields": ["st", "post", "overdue"], "custom": retry_run,
           "quick": {"n": 40, "shards": 12}, "thorough": {"n": 96, "shards": 24}}
 
-STOP_RUN = {"harness": "hstop", "driver": "stopdrv", "fields": ["stop", "opens", "closes"] + ["c%d" % i for i in range(64)],
+STOP_RUN = {"harness": "hstop", "driver": "stopdrv", "corpus": "stopsim", "fields": ["stop", "opens", "closes"] + ["c%d" % i for i in range(64)],
             "custom": retry_run, "quick": {"n": 30, "shards": 12}, "thorough": {"n": 120, "shards": 24}}
 
-WSCB_RUN = {"harness": "hwscb", "driver": "wscbdrv", "fields": ["log", "run", "ret", "sent", "wire", "ql", "rets", "groups", "whole"],
+WSCB_RUN = {"harness": "hwscb", "driver": "wscbdrv", "corpus": "wscb", "fields": ["log", "run", "ret", "sent", "wire", "ql", "rets", "groups", "whole"],
             "custom": retry_run, "quick": {"n": 40, "shards": 12}, "thorough": {"n": 150, "shards": 24}}
 
 PROPS = {
